@@ -122,7 +122,15 @@ def c1_tt(fb, rep):
     sw = fb.find1('Search::setWhiteContempt')
     if rep.need(clause, sw, 'Search::setWhiteContempt'):
         calls = R.calls_in(sw, 'ClusterTT::setWhiteContempt', TT + '::setWhiteContempt')
-        rep.ob(clause, 'K2 must-call', 'Search::setWhiteContempt forwards to the table', bool(calls), sw.where, '', sw.sname)
+        # forwarded unconditionally for the main thread: the only test the call may depend on is the thread number
+        from .. import regions as G_
+        extra = []
+        for b_, i_, e_ in calls:
+            for g_, sd_ in G_.guard_trees(sw, set(sw.blocks), b_):
+                if not any((ap(n_) or '') == 'this.threadNo' for n_ in walk(g_)):
+                    extra.append(('' if sd_ else '!') + show(g_, 120))
+        rep.ob(clause, 'K2 must-call', 'Search::setWhiteContempt forwards to the table for thread 0 whatever the previous value was (the table outlives the Search object)',
+               bool(calls) and not extra, sw.where, ('the call also depends on: %s' % extra) if extra else '', sw.sname)
     tw = fb.find1(TT + '::setWhiteContempt')
     if rep.need(clause, tw, TT + '::setWhiteContempt'):
         ok = Effects(fb, TT).must_write(tw, 'contemptHash')
